@@ -205,3 +205,25 @@ m("c15-set-comp-phases-validates-late", ["C15"], Y,
 m("c15-del-last-source-checked-after-children-removed", ["C15"], Y,
   "            if len(self._get_sources()) < 2:\n                raise ValueError(\"Cannot delete the last source component!\")\n        childs = self._get_childs()",
   "            if len(self._get_sources()) < 2:\n                for c in rx.descendants(self._g, eidx):\n                    self._g.attrs[\"groups\"][self._g[c]._params[\"name\"]] = \"\"\n                raise ValueError(\"Cannot delete the last source component!\")\n        childs = self._get_childs()")
+
+# ---- C16 -------------------------------------------------------------------------------------
+m("c16-pnames-not-updated-on-rename", ["C16"], Y,
+  "        for k in self._g.attrs[\"pnames\"]:\n            self._g.attrs[\"pnames\"][k] = [\n                comp._params[\"name\"] if p == name else p\n                for p in self._g.attrs[\"pnames\"][k]\n            ]\n", "")
+m("c16-pnames-not-updated-on-reparent", ["C16"], Y,
+  "                    if name in pn:\n                        if pname in pn:\n                            pn.remove(name)\n                        else:\n                            pn[pn.index(name)] = pname\n", "")
+m("c16-change-comp-keeps-old-group", ["C16"], Y,
+  "        del [self._g.attrs[\"groups\"][name]]\n        self._g.attrs[\"groups\"][comp._params[\"name\"]] = group",
+  "        old = self._g.attrs[\"groups\"].pop(name)\n        self._g.attrs[\"groups\"][comp._params[\"name\"]] = old or group")
+m("c16-change-comp-keeps-phase-conf-under-old-name", ["C16"], Y,
+  "        del [self._g.attrs[\"phase_conf\"][name]]\n        self._g.attrs[\"phase_conf\"][comp._params[\"name\"]] = {}",
+  "        self._g.attrs[\"phase_conf\"][comp._params[\"name\"]] = {}")
+m("c16-domain-order-leak", ["C16"], Y,
+  "        elif self._parents[n] != -1:\n            return self._find_domain(self._parents[n][0], domain, v)\n", "")
+m("c16-params-shows-stale-interp", ["C16"], C,
+  "                if isinstance(self._params[param], dict):\n                    ret[param] = \"interp\"", "                if isinstance(self._params[param], dict):\n                    ret[param] = \"table\"")
+m("c16-del-childs-false-drops-grandchildren-group", ["C16"], Y,
+  "        del [self._g.attrs[\"groups\"][name]]\n        del [self._g.attrs[\"rails\"][name]]\n        # restore links",
+  "        del [self._g.attrs[\"groups\"][name]]\n        del [self._g.attrs[\"rails\"][name]]\n        if not del_childs and childs[eidx] != -1:\n            for c in childs[eidx]:\n                self._g.attrs[\"groups\"][self._g[c]._params[\"name\"]] = \"\"\n        # restore links")
+m("c16-phases-report-uses-ctor-value-for-listed", ["C16"], Y,
+  "                        if p == \"N/A\":\n                            pwr += [self._g[n]._params[\"pwr\"]]\n                        else:\n                            pwr += [self._phase_lkup[n][p]]",
+  "                        if p == \"N/A\" or True:\n                            pwr += [self._g[n]._params[\"pwr\"]]\n                        else:\n                            pwr += [self._phase_lkup[n][p]]")
